@@ -246,13 +246,13 @@ pub fn run(ctx: &Ctx) -> (Stats, Spec) {
     let parts = util::par_jobs(2 * 8, |job| exhaustive_job(3, job / 8, job % 8, 8, 1, 3));
     st.merge(crate::report::merge_all(parts));
     st.exhaustive.push("all 256 functions over 3 variables x all variable lists of length <= 3 (with repetition) over support + 3 outside labels (below/inside/above) x {exists, all} x 2 label families".into());
-    let (stride, maxlen) = ctx.tier.pick((64u64, 2usize), (1u64, 3usize));
+    let (stride, maxlen) = ctx.tier.pick((8u64, 3usize), (1u64, 3usize));
     let parts = util::par_jobs(2 * 16, |job| exhaustive_job(4, job / 16, job % 16, 16, stride, maxlen));
     st.merge(crate::report::merge_all(parts));
     if stride == 1 {
         st.exhaustive.push("all 65 536 functions over 4 variables x all lists of length <= 3 x {exists, all} x 2 label families".into());
     }
-    let iters = ctx.tier.pick(3_000u64, 300_000u64);
+    let iters = ctx.tier.pick(15_000u64, 300_000u64);
     let parts = util::par_jobs(16, |job| {
         let mut s = random_job(ctx, job, iters);
         s.merge(language_job(ctx, job, iters / 3));
